@@ -16,5 +16,6 @@ CONSTANTS
   WithIndexer = FALSE
   MaxHeaders = 0
   TraceMode = FALSE
+  Foreign = FALSE
 INVARIANTS NoCrash NoLostTopic LockInv NoLeakedPublisher TopicAgreement IndexerInv
 CHECK_DEADLOCK TRUE
